@@ -24,6 +24,15 @@ var Root = func() string {
 	return "/verif"
 }()
 
+// Out is where evidence, replay files and scratch go (VERIF_OUT, default Root).  Known findings are
+// always read from Root.
+var Out = func() string {
+	if r := os.Getenv("VERIF_OUT"); r != "" {
+		return r
+	}
+	return Root
+}()
+
 // Panic describes a recovered panic.
 type Panic struct {
 	Value string
@@ -202,7 +211,7 @@ func (r *Run) Violate(class, sig string, detail map[string]any) {
 	}
 	r.printed++
 	h := sha1.Sum([]byte(r.Prop + "|" + class))
-	path := filepath.Join(Root, "replays", fmt.Sprintf("%s-%s.json", r.Prop, hex.EncodeToString(h[:5])))
+	path := filepath.Join(Out, "replays", fmt.Sprintf("%s-%s.json", r.Prop, hex.EncodeToString(h[:5])))
 	rec := map[string]any{"property": r.Prop, "class": class, "sig": sig, "seed": r.Seed, "tier": r.Tier, "detail": detail}
 	rerun := []string{r.Prop, "--tier", r.Tier, "--seed", fmt.Sprint(r.Seed)}
 	if t, ok := detail["type"].(string); ok && t != "" {
@@ -289,7 +298,7 @@ func (r *Run) Finish() int {
 		return code
 	}
 	if r.Only == "" || os.Getenv("VERIF_WRITE_EVIDENCE") == "1" {
-		dir := filepath.Join(Root, "evidence")
+		dir := filepath.Join(Out, "evidence")
 		os.MkdirAll(dir, 0o755)
 		b, err := json.MarshalIndent(ev, "", " ")
 		if err != nil {
